@@ -178,6 +178,14 @@ class BitsDom:
                 if w == W:
                     return True
                 raise Cannot(f"no dominating guard establishes {b.func.value.id}.nbits == width {W} before {norm(e)}")
+            if isinstance(b, ast.Call) and isinstance(b.func, ast.Attribute) and isinstance(b.func.value, ast.Name) and b.func.value.id == me \
+                    and b.func.attr in ('__add__', '__sub__', '__mul__', '__and__', '__or__', '__xor__', '__lshift__', '__rshift__', '__invert__',
+                                        '__floordiv__', '__mod__', '__radd__', '__rsub__', '__rand__', '__ror__', '__rxor__', 'clone'):
+                # the result of one of the object's own same-width operators: a valid Bits of width N (each of those methods is
+                # itself subject to the range rule, so this is the induction hypothesis one call deeper)
+                if W == 'N':
+                    return True
+                raise Cannot(f"{norm(e)} has the object's width, not {W}")
             raise Cannot(f"cannot resolve the owner of {norm(e)}", definite=False)
         if isinstance(e, ast.Name):
             rv = reaching_value(e.id, at)
